@@ -250,6 +250,21 @@ func runC08(cfg *runCfg) error {
 		cs := &c08Case{Kind: "valid", Fed: spec, Salt: salt, Query: q.Text, Valid: true}
 		o := c08Run(func() (gateway.QueryPlanList, error) { return fed.GW.GetPlans(&gateway.RequestContext{Query: q.Text}) })
 		emit(cs, o, "true", 0)
+		// more valid documents on the same federation, heavy on fragments inside fragments
+		for extra := 0; extra < 5; extra++ {
+			kf := fedKnobs(r, "C08")
+			kf.NamedFrags, kf.InlineFrags, kf.NoNestedFrag, kf.Untyped = true, true, false, true
+			kf.Depth = 2 + r.Intn(2)
+			kf.AliasID, kf.VarNamedID = false, false
+			qf := genQuery(r, spec, st, kf)
+			if _, ferr2 := gqlparser.LoadQuery(fed.Cap.Schema, qf.Text); ferr2 != nil {
+				doc.Dist["generator:invalid-query"]++
+				continue
+			}
+			csf := &c08Case{Kind: "valid", Fed: spec, Salt: salt, Query: qf.Text, Valid: true}
+			of := c08Run(func() (gateway.QueryPlanList, error) { return fed.GW.GetPlans(&gateway.RequestContext{Query: qf.Text}) })
+			emit(csf, of, "true", 0)
+		}
 		// (c) invalid
 		bad := q.Text
 		switch r.Intn(5) {
